@@ -28,7 +28,7 @@ def rules(detail):
 
 def rnd(meta):
     w = meta.get("written_by", "")
-    for r in ("round 4", "round 2"):
+    for r in ("round 8", "round 6", "round 4", "round 2"):
         if r in w:
             return r[-1]
     return "1"
@@ -55,8 +55,11 @@ one property and a private scratch git worktree of `/repo` (nothing from `/verif
 `patch.diff`, the demonstration test, the author's `README.md`, and `meta.json` (property,
 what it needs to manifest, how it was confirmed). Round 1: one change per property; round 2:
 two per property, the two most obvious ideas skipped; round 4: two per property, one in the
-guise of a refactoring, one in the guise of a feature or robustness improvement (round 3 and
-5 were behaviour-*preserving* refactorings, see `../refactors/`). Every one was confirmed with
+guise of a refactoring, one in the guise of a feature or robustness improvement; round 6: one
+per property, the idea its author judged a careful reviewer least likely to notice; round 8:
+three tiny changes (at most three lines) per property (rounds 3, 5, 7 and 9 were
+behaviour-*preserving* refactorings, see `../refactors/`). `_defects/` holds the throw-away
+tests that reproduced genuine defects found on the way (D17). Every one was confirmed with
 `tools/confirm_seed.sh` in a fresh archive of `/repo`'s HEAD at the time: the demonstration
 passes without the change and fails with it, and the unedited suites of all five modules
 pass with it. None was ever applied in `/repo`. Where a later `fix:` commit made a patch
@@ -68,8 +71,9 @@ Replay: `python3 tools/seeded.py [--id X] [--allprops]` (scratch copy per seed, 
 """)
         n = len(rows)
         own = sum(1 for _, m, _ in rows if m["reported_by"])
+        other = sum(1 for _, m, _ in rows if not m["reported_by"] and m["also_reported_by"])
         first = sum(1 for _, m, _ in rows if m["first_replay"] == "reported")
-        f.write("%d changes; %d reported by the property they break (today); %d were reported at the first replay of their round, the others led to a new rule (never phrased over the patch, always over the construct; each has benign variants).\n\n" % (n, own, first))
+        f.write("%d changes; %d reported by the property they break (today), %d only by the neighbouring property that owns the broken clause; %d were reported at the first replay of their round, the others led to a new rule (never phrased over the patch, always over the construct).\n\n" % (n, own, other, first))
         f.write("| seed | round | property | needs, to manifest | reported by (rule [construct]) | also reported by | first replay |\n|---|---|---|---|---|---|---|\n")
         for id_, m, rd in rows:
             f.write("| %s | %s | %s | %s | %s | %s | %s |\n" % (
